@@ -282,12 +282,14 @@ func (x *Exec) applyContractClosure(st *State, site ssa.Instruction, callee *ssa
 	}
 	env2.bindResults(callee, results)
 	for _, en := range ct.Ensures {
-		if len(en.Props) > 0 && x.prop != "" && !hasProp(en.Props, x.prop) {
-			continue // clause belongs to other properties: neither proved nor used in this run
+		if en.AssumeScoped && len(en.Props) > 0 && x.prop != "" && !hasProp(en.Props, x.prop) {
+			continue // clause scoped to other properties (label@~Cxx): not used in this run
 		}
 		t := env2.eval(en.Expr)
 		if env2.err != nil {
-			x.specError(en.Expr, env2.err)
+			if !strings.Contains(env2.err.Error(), "unknown identifier") {
+				x.specError(en.Expr, env2.err)
+			} // else: a clause about the callee's own locals says nothing to the caller
 			env2.err = nil
 			continue
 		}
